@@ -800,7 +800,7 @@ class Processor:
                 elif parentref in parent:
                     del parent[parentref]
             elif isinstance(parent, (CommentedSeq, list)):
-                if len(parent) > parentref:
+                if -len(parent) <= parentref < len(parent):
                     del parent[parentref]
             elif isinstance(parent, (CommentedSet, set)):
                 parent.discard(parentref)
